@@ -115,8 +115,12 @@ func (m *machine) findIntrinsic(fn *ssa.Function) intrinsic {
 			return func(m *machine, c *frame, fn *ssa.Function, a []value) value { return nil }
 		case "time.After":
 			return func(m *machine, c *frame, fn *ssa.Function, a []value) value {
-				// a timer channel that is never ready unless the harness says so
-				return &chanV{cap: 1}
+				// a timer that has already fired: a select offering it next to
+				// another ready channel explores both outcomes; alone, the
+				// timeout branch is taken (environment = nondeterministic stub)
+				ch := &chanV{cap: 1}
+				ch.buf = append(ch.buf, zero(fn.Signature.Results().At(0).Type().Underlying().(*types.Chan).Elem()))
+				return ch
 			}
 		}
 	case "math":
@@ -185,6 +189,13 @@ func (m *machine) findIntrinsic(fn *ssa.Function) intrinsic {
 	case "reflect":
 		if base == "DeepEqual" {
 			return deepEqualStub
+		}
+	case "os/signal":
+		return func(m *machine, c *frame, fn *ssa.Function, a []value) value { return zeroResults(fn) }
+	case "math/rand":
+		switch base {
+		case "Intn", "Int63", "Int", "Int31n", "Int63n":
+			return func(m *machine, c *frame, fn *ssa.Function, a []value) value { return int64(0) }
 		}
 	case "os":
 		switch base {
